@@ -201,9 +201,13 @@ def r3_adapts_originals_for_itself(ctx):
     ctx.touch(m, build)
     rv = recv_name(m)
     call = [c for c in ast.walk(m.node) if isinstance(c, ast.Call) and call_name(c) == ad.name][0]
-    ok_owner = len(call.args) >= 2 and dotted(call.args[1]) == rv
+    # arguments by the adapter's parameters (positional or by keyword)
+    bound = dict(zip(ad.params, call.args))
+    bound.update({k.arg: k.value for k in call.keywords if k.arg})
+    first, second = (bound.get(ad.params[0]), bound.get(ad.params[1])) if len(ad.params) >= 2 else (None, None)
+    ok_owner = second is not None and dotted(second) == rv
     ctx.ob(f"{m.key}:owner-is-self", m.loc(call), "each function adapts methods for itself (the owner handed to the adapter is the receiver)", ok_owner, f"`{short(call, 70)}` adapts the method for another function: recurse inside an inherited method re-enters the parent instead of the variant that was called")
-    fn_arg = dotted(call.args[0]) if call.args else None
+    fn_arg = dotted(first) if first is not None else None
     ok_orig = fn_arg in m.params
     ctx.ob(f"{m.key}:adapts-parameter", m.loc(call), "the adapter is given the function passed in by the build loop (an original from the effective table)", ok_orig, "the adapter is not given the build loop's original function")
     # the build loop takes originals from the effective table
